@@ -14,7 +14,7 @@ CONSTANTS
   ContentSel = {4, 6, 7}
   ProfileSel = {1, 2}
   UseJson = TRUE
-  BoundarySel = {2}
+  BoundarySel = {6}
   PreSel = {1, 3}
   EpiSel = {1, 3}
   FinSel = {TRUE}
@@ -24,5 +24,6 @@ CONSTANTS
   EditVals = {}
   Depth = 8
 INVARIANT ParseOfEncodeIsForm
+INVARIANT QuotedRoundTrip
 INVARIANT LimitsExactAtThreshold
 INVARIANT Emit
